@@ -160,6 +160,7 @@ func ruleURN(e *Env) {
 		if k, ok := flow.ConstInt(call.Call.Args[2]); ok && k == urnFlag {
 			e.S.Ok(rule, site, "prefix-literal", "URN formats with FormatURN onto an empty buffer: the prefix comes from the formatter's URN layout", e.Pos(fn))
 			e.S.Ok(rule, site, "flag", "format flag FormatURN on an empty buffer", e.Pos(fn))
+			urnReceiver(e, rule, site, fn, call)
 			urnResult(e, rule, site, fn, call)
 			return
 		}
@@ -209,32 +210,7 @@ func ruleURN(e *Env) {
 	} else {
 		e.S.Ok(rule, site, "flag", "format flag 0 (plain rendering after the prefix)", e.Pos(fn))
 	}
-	// the ID rendered is the receiver itself
-	recvOK := false
-	if len(call.Call.Args) > 1 && len(fn.Params) > 0 {
-		a := call.Call.Args[1]
-		if a == ssa.Value(fn.Params[0]) {
-			recvOK = true
-		} else if ld, ok := a.(*ssa.UnOp); ok && ld.Op == token.MUL {
-			if al, ok := ld.X.(*ssa.Alloc); ok {
-				n, onlyRecv := 0, true
-				for _, r := range *al.Referrers() {
-					if st, ok := r.(*ssa.Store); ok && st.Addr == ssa.Value(al) {
-						n++
-						if st.Val != ssa.Value(fn.Params[0]) {
-							onlyRecv = false
-						}
-					}
-				}
-				recvOK = n == 1 && onlyRecv
-			}
-		}
-	}
-	if recvOK {
-		e.S.Ok(rule, site, "receiver", "the ID handed to the formatter is the receiver", e.Pos(fn))
-	} else {
-		e.S.Bad(rule, site, "receiver", "the ID handed to the formatter is not the receiver unchanged: URN renders another value", e.posOf(call), "")
-	}
+	urnReceiver(e, rule, site, fn, call)
 	// nothing writes into the prefix buffer between its creation and the call
 	if buf := call.Call.Args[0]; buf.Referrers() != nil {
 		touched := ""
@@ -288,5 +264,43 @@ func urnResult(e *Env, rule, site string, fn *ssa.Function, call *ssa.Call) {
 		e.S.Ok(rule, site, "result", "returns the formatter's buffer converted to string", e.Pos(fn))
 	} else {
 		e.S.Bad(rule, site, "result", "URN does not return the formatter's result #0", e.Pos(fn), "")
+	}
+}
+
+// urnReceiver: the ID handed to the formatter is the receiver, unchanged.
+func urnReceiver(e *Env, rule, site string, fn *ssa.Function, call *ssa.Call) {
+	// the ID rendered is the receiver itself
+	recvOK := false
+	if len(call.Call.Args) > 1 && len(fn.Params) > 0 {
+		a := call.Call.Args[1]
+		if a == ssa.Value(fn.Params[0]) {
+			recvOK = true
+		} else if ld, ok := a.(*ssa.UnOp); ok && ld.Op == token.MUL {
+			if al, ok := ld.X.(*ssa.Alloc); ok {
+				n, onlyRecv := 0, true
+				for _, r := range *al.Referrers() {
+					if st, ok := r.(*ssa.Store); ok && st.Addr == ssa.Value(al) {
+						n++
+						if st.Val != ssa.Value(fn.Params[0]) {
+							onlyRecv = false
+						}
+					}
+					// a field of the receiver's copy written before the call (`i.Lower = …`)
+					if fa, ok := r.(*ssa.FieldAddr); ok && fa.Referrers() != nil {
+						for _, rr := range *fa.Referrers() {
+							if st, ok := rr.(*ssa.Store); ok && st.Addr == ssa.Value(fa) {
+								onlyRecv = false
+							}
+						}
+					}
+				}
+				recvOK = n == 1 && onlyRecv
+			}
+		}
+	}
+	if recvOK {
+		e.S.Ok(rule, site, "receiver", "the ID handed to the formatter is the receiver", e.Pos(fn))
+	} else {
+		e.S.Bad(rule, site, "receiver", "the ID handed to the formatter is not the receiver unchanged: URN renders another value", e.posOf(call), "")
 	}
 }
